@@ -383,6 +383,8 @@ var c14Regexes = []string{
 	"^a", "a$", "^a$", "^.", ".$", "^ab", "a+$", "^(a|b)", "(a|b)$",
 	"(a+?)b", "(?:a+?)b", "(a??)b", "(a{1,2}?)b", "x(\\d*?)y", "(?:ab+?)+c", "(a*?)b", "((a+?)b)+", "(a|b+?)c", "(a+?|b)c", "(?<n>a+?)b\\k<n>",
 	"(a)\\1", "(a|b)\\1", "(.)\\1", "(ab)\\1", "(a)(b)\\2\\1", "((a)b)\\1", "((a)b)\\2", "(a(b))\\2", "(?<n>a)\\k<n>", "(?<n>.)b\\k<n>", "(a+)b\\1", "(.)(.)\\2\\1", "(?:(a)|b)\\1c",
+	// adjacent variable-length groups that can divide the same text in several ways, decided by a back-reference
+	"(a+)(a*)b\\1", "(\\d+)(\\d*)-\\1", "(a*)(a+)-\\2", "(.+)(.*)-\\1", "(a|(?:ab))(c|(?:bc))\\1", "(a+?)(a*)b\\1", "(?<p>\\d+)(?<q>\\d*),\\k<p>",
 }
 
 func VerifC14Count() int { return len(c14Regexes) }
